@@ -30,7 +30,8 @@ def run(prop, tier, seed, ctx):
     singles = shard_map("bind.verify", "text_chunk", [(t, (i % 3) * 4) for i, t in enumerate(texts)])
     from bind.verify import PROLOGUES, SECTION_BODIES
     sect = shard_map("bind.verify", "section_chunk", [(p, b, k) for p in range(len(PROLOGUES)) for b in range(len(SECTION_BODIES)) for k in (1, 2)] +
-                     [(p, b, k, "stop") for p in range(len(PROLOGUES)) for b in range(len(SECTION_BODIES)) for k in (1, 2)], chunk=10)
+                     [(p, b, k, "stop") for p in range(len(PROLOGUES)) for b in range(len(SECTION_BODIES)) for k in (1, 2)] +
+                     [(p, b, k, "set") for p in range(len(PROLOGUES)) for b in range(len(SECTION_BODIES)) for k in (1, 2)], chunk=10)
     for t in sect:
         if "environment_mismatch" in t["events"][0]:
             raise MachineryError("sectioned offer: " + t["events"][0]["environment_mismatch"] + " for %r" % t["texts"][0])
